@@ -278,9 +278,10 @@ def run(ctx):
     loop_rules(ctx)
     wrapper_rules(ctx)
     threads_rules(ctx)
-    from . import C15_bounds
+    from . import C15_bounds, C15_kernels
 
     C15_bounds.run(ctx)
+    C15_kernels.run(ctx)
     return (
         "Decides clause (c) of C15 (bit-identical for every thread count) and the race-freedom part of (a) by loop-shape "
         "analysis of every prange/parallel region in the three .pyx kernels: each array element written in a parallel loop is "
